@@ -400,6 +400,9 @@ fn record(rep: &mut Report, case: &Case, j: &Judgement) {
     }
     for r in &j.inconclusive {
         rep.inconclusive(r);
+        if r.starts_with("watchdog") || r.starts_with("harness panic") {
+            rep.note(format!("inconclusive ({}) for case {}", r.chars().take(60).collect::<String>(), case.to_json()));
+        }
     }
 }
 
